@@ -163,6 +163,12 @@ def ret_buffer(an, f):
 
 def k256_uncompressed(ctx, f):
     an = ctx.an(f)
+    # a y coordinate is only present in an *uncompressed* SEC1 point: every to_encoded_point(.., compress) has compress == false
+    for b, t in f.calls():
+        if t.callee and t.callee.name == "to_encoded_point" and len(t.args) == 2:
+            flag = strip(an.operand_expr(t.args[1], b.idx, len(b.stmts)))
+            if not (flag.k == "const" and flag.a[0] == 0):
+                return False, "to_encoded_point is asked for the compressed form (%s): it has no y coordinate" % short(flag, 40)
     buf = ret_buffer(an, f)
     # second accepted form: the 65-byte SEC1 uncompressed encoding minus its tag byte
     if buf is not None:
